@@ -222,6 +222,7 @@ impl<'a> From<Value<'a>> for NaiveDateTime {
     fn from(val: Value<'a>) -> Self {
         if let ValueInner::Datetime(mut v) = val.0 {
             assert!(v.len() == 7 || v.len() == 11);
+            let has_micros = v.len() == 11;
             if let Some(d) = NaiveDate::from_ymd_opt(
                 i32::from(v.read_u16::<LittleEndian>().unwrap()),
                 u32::from(v.read_u8().unwrap()),
@@ -231,7 +232,7 @@ impl<'a> From<Value<'a>> for NaiveDateTime {
                 let m = u32::from(v.read_u8().unwrap());
                 let s = u32::from(v.read_u8().unwrap());
 
-                let d = if v.len() == 11 {
+                let d = if has_micros {
                     let us = v.read_u32::<LittleEndian>().unwrap();
                     d.and_hms_micro_opt(h, m, s, us)
                 } else {
@@ -256,6 +257,7 @@ impl<'a> From<Value<'a>> for Duration {
             if v.is_empty() {
                 return Duration::from_secs(0);
             }
+            let has_micros = v.len() == 12;
 
             let neg = v.read_u8().unwrap();
             if neg != 0u8 {
@@ -266,7 +268,7 @@ impl<'a> From<Value<'a>> for Duration {
             let hours = u64::from(v.read_u8().unwrap());
             let minutes = u64::from(v.read_u8().unwrap());
             let seconds = u64::from(v.read_u8().unwrap());
-            let micros = if v.len() == 12 {
+            let micros = if has_micros {
                 v.read_u32::<LittleEndian>().unwrap()
             } else {
                 0
